@@ -121,7 +121,8 @@ def loop_counter(ps, p, step=1):
         return []
     node, lmap = p.loops[-1]
     st = loop_steps(ps, node)
-    return [(k, lmap[k][0], lmap[k][1]) for k in lmap if st.get(k) == step]
+    # a variable the engine has expressed through another one (a walking pointer = base + position) is not a counter of its own
+    return [(k, lmap[k][0], lmap[k][1]) for k in lmap if st.get(k) == step and isinstance(lmap[k][0], tuple) and lmap[k][0][0] == 'h']
 
 
 def pointer_walk(eng, ps):
@@ -136,6 +137,8 @@ def pointer_walk(eng, ps):
             seen.add(id(node))
             st = loop_steps(ps, node)
             for k, step in st.items():
+                if k in lmap and isinstance(lmap[k][0], tuple) and lmap[k][0][0] != 'h':
+                    continue           # the engine has expressed this pointer as base + index (Engine._index_pointer_walks)
                 if step and ('*' in (eng.types.get(k) or '') or '*' in (eng.types.get(lmap[k][0]) or '')):
                     return fmt(k)
     return None
